@@ -380,7 +380,7 @@ def object_corruption_obligations(job):
     """Concrete: the signatures agree but ONE ELEMENT of the second object is not what its signature says (a signal of another
     width or initial value, also at array indices above 0): connect() must refuse the tuple."""
     spec = job["spec"]
-    r = random.Random((hash(job["id"]) & 0xffff) + 13)
+    r = random.Random((run.stable_hash(job["id"]) & 0xffff) + 13)
     out = []
     tops = [(name, flow, m) for (name, flow, m) in spec[1] if m[0] == "port" and m[1][0] in ("u", "s") and all(d > 0 for d in m[3])]
     if not tops:
@@ -487,7 +487,7 @@ def constant_obligations(job):
     output, raise ConnectionError."""
     from amaranth.sim import Simulator
     spec = job["spec"]
-    r = random.Random((hash(job["id"]) & 0xffff) + 7)
+    r = random.Random((run.stable_hash(job["id"]) & 0xffff) + 7)
     leaves = [(p, eff, shp) for p, eff, shp, init in ref_leaves(spec, False) if shp[0] in ("u", "s") and shp[1] > 0 and isinstance(p[-1], str)]
     out = []
     if not leaves:
@@ -603,7 +603,7 @@ def corruption_obligations(job):
     """Concrete: single-point corruptions of the second interface must make connect() raise ConnectionError.
     (No value is quantified over here: this is an auxiliary structural test, not a solver claim.)"""
     spec = job["spec"]
-    r = random.Random(hash(job["id"]) & 0xffff)
+    r = random.Random(run.stable_hash(job["id"]) & 0xffff)
     ports = [(p, mem) for p, mem in _port_paths(spec) if all(d > 0 for d in mem[2][3])]
     # every enclosing array must be non-empty for the leaf to exist
     out = []
